@@ -87,6 +87,7 @@ func c11GenRT(rng *sim.Rand) *c11MuxSc {
 	for i := range sc.Gens {
 		// the server-level body limit is not a hot field
 		sc.Gens[i].MaxBody = sc.Gens[0].MaxBody
+		sc.Gens[i].Trace = 0 // tracing is generated in mode mux only
 		if i > 0 && rng.Bool(0.5) {
 			// make sure the top-level IP filter changes often (and stays permissive for some client)
 			if sc.Gens[i-1].IPF == nil || rng.Bool(0.5) {
